@@ -14,7 +14,7 @@ RULE = ("box = {1,2,3,default}^4 settings of (am_posted, am_tested, dynamic, dyn
         "rank oracles (AM deliveries + control deliveries + put/get completions on both sides); a session is non-trivial when on some rank "
         "a request overflowed into one of the engine's pending queues (dynamic send/recv fifo seen non-empty or a put deferred because "
         "can_serve() was false) AND one progress() call delivered more messages than the tested window holds; distinct outcomes = distinct "
-        "per-session tuples over ranks of (send fifo used, recv fifo used, puts deferred, largest delivery batch / tested window bucket)")
+        "per-session tuples over ranks of (log2 buckets of: times the send fifo / the recv fifo were seen non-empty, puts deferred; largest delivery batch / tested window) - a timing-dependent signature, it shows that the runs differ in how the queues were used")
 ASSUME = ["MPI message timing / completion order is whatever OpenMPI 4.1.4 (ob1, vader) produces on this machine: not enumerated",
           "the script respects the engine's usage contracts listed in level_note",
           "known finding C14-get-recv-window-deadlock: mutual gets are only scripted where dynamic_recv_requests < dynamic_requests"]
@@ -122,7 +122,7 @@ class Acc:
             b = s['max_batch'] > s['eff'][1]
             over = over or o
             burst = burst or b
-            sig.append((int(s['seen_sendfifo'] > 0), int(s['seen_recvfifo'] > 0), int(s['deferred_puts'] > 0), min(s['max_batch'] // max(s['eff'][1], 1), 9)))
+            sig.append((min(s['seen_sendfifo'].bit_length(), 12), min(s['seen_recvfifo'].bit_length(), 12), min(s['deferred_puts'].bit_length(), 8), min(s['max_batch'] // max(s['eff'][1], 1), 15)))
         if over and burst:
             L['nontrivial'].add(tuple(pt['c']))
         L['outcomes'].add(tuple(sig))
@@ -156,6 +156,10 @@ def judge(ctx, acc, res, believed):
             return viol, suspects, unrun
         # some rank has no record for this configuration: the launch died here
         part = ' || '.join(s['message'] for s in row if s is not None and s['message'])
+        if 'ce_h:' in res.stderr:       # the harness itself refused (bad configuration, tag not free, parameters not in effect, ...)
+            ctx.broken.append('n=%d %s: %s' % (n, list(pt['c']), ' | '.join(x for x in res.stderr.splitlines() if 'ce_h:' in x)[:400]))
+            unrun.extend(pts[i + 1:])
+            return viol, suspects, unrun
         ck = read_ckpt(res)
         ov = tag_overlap(ck) if ck and all(list(c['cfg']) == list(pt['c']) for c in ck.values()) else None
         if ov:      # the box script itself mixed put and get data in one direction with overlapping tags: a bug of the script
